@@ -52,15 +52,27 @@ def render(template, values):
     return template.format(*values)
 
 
-def asm(template, syms, att=False):
-    """template: line with {k} placeholders; syms: list of SInt/int for them -> list of candidates (bytes / SBytes)"""
+_FRESH = [0]
+
+
+def fresh_placeholders(k):
+    """k numerals never used before in this process: the operand text they appear in is new to every cache keyed by text"""
+    out = [2000003 + 7 * (_FRESH[0] + i) for i in range(k)]
+    _FRESH[0] += k
+    return out
+
+
+def asm(template, syms, att=False, ph=None):
+    """template: line with {k} placeholders; syms: list of SInt/int for them -> list of candidates (bytes / SBytes)
+    ph: the numerals to print for the numbers (default: the fixed PLACEHOLDERS)"""
+    ph = PLACEHOLDERS[:len(syms)] if ph is None else ph
     m = {}
     for k, v in enumerate(syms):
-        m[PLACEHOLDERS[k]] = v
+        m[ph[k]] = v
     LEX_I.map = m
     LEX_A.map = m
     try:
-        line = template.format(*PLACEHOLDERS[:len(syms)])
+        line = template.format(*ph[:len(syms)])
         if att:
             return E.A.x86mnemo.asm_att(line)
         return E.A.x86mnemo.asm(line)
@@ -83,6 +95,7 @@ R16 = ['ax', 'bx', 'si']
 R8 = ['al', 'cl', 'ah', 'bh']
 MEMS = ['[ebx]', '[ebp]', '[esp]', '[ebx+{N}]', '[ebp+{N}]', '[ebx+esi*4+{N}]', '[esi*2+{N}]', '[esi*4+{N}]', '[{N}]', '[eax+ecx]', '[esp+{N}]', 'es:[edi+{N}]',
         '[ebx-{N}]', '[ebx+ebx*2+{N}]', '[ebp+esi*8]']
+SEGMEMS = ['ss:[eax+ebp*2+{N}]', 'fs:[ebx+{N}]', 'es:[edi+{N}]', 'gs:[{N}]', 'cs:[esi*4+{N}]', 'ss:[ebx]', 'ds:[ebp+{N}]']
 SIZES = ['BYTE PTR', 'WORD PTR', 'DWORD PTR', 'QWORD PTR', 'XMMWORD PTR', 'TBYTE PTR']
 
 
@@ -96,6 +109,12 @@ def operand_shapes(tier):
             out.append(('m%s:%s' % (sz.split()[0].lower(), m.replace('{N}', 'N')), '%s %s' % (sz, m)))
     for m in mems:
         out.append(('mnosize:%s' % m.replace('{N}', 'N'), m))
+    # explicit segment overrides that are not the default segment of the address (ebp as index, no base: the default is ds)
+    for m in SEGMEMS:
+        out.append(('mdword:%s' % m.replace('{N}', 'N'), 'DWORD PTR %s' % m))
+        if tier == 'thorough':
+            out.append(('mbyte:%s' % m.replace('{N}', 'N'), 'BYTE PTR %s' % m))
+            out.append(('mnosize:%s' % m.replace('{N}', 'N'), m))
     return out
 
 
